@@ -46,6 +46,8 @@ UStep(st, e, t) ==
            LET c == st.cons[e.k] IN
            IF e.frames # (IF c.enabled /\ c.rtr THEN <<[id |-> c.cob, d |-> <<>>, rtr |-> TRUE]>> ELSE <<>>)
              THEN Bad(st, "remote request not sent exactly for an enabled map that allows RTR")
+           ELSE IF ~e.pdata_kept \/ e.cons # Proj(st.cons)
+             THEN Bad(st, "a remote frame was taken for data (producer / consumer maps changed)")
            ELSE Good(st)
       [] e.e = "wait" ->
            \* fed: timestamps of producer transmissions while map k was waiting
